@@ -82,7 +82,7 @@ fn verdict_json<S: ShortGroupSignatureScheme>(scn: &Scn<S>, v: &Value) -> (&'sta
     match pres_from_value::<S>(v) {
         Out::Ok(p) => match scn.verify(&p) {
             Out::Ok(_) => ("accepted", Some(p)),
-            Out::Err => ("rejected", None),
+            Out::Err => ("rejected", Some(p)),
             Out::Panic(_) => ("panic", None),
         },
         Out::Err => ("undecodable", None),
@@ -119,6 +119,9 @@ fn c11_suite<S: ShortGroupSignatureScheme>(em: &mut Emitter, base: &mut Rng, sui
         leaves(&pv, &mut vec![], &mut ls);
         let all_leaf_values: Vec<Value> = ls.iter().map(|(_, v)| v.clone()).collect();
         em.count_n("leaves", ls.len() as u64);
+        // model: what the commitment / encryption verifiers recompute for the honest object
+        recommit_lines(em, suite, &scn.schema, &p, &scn.nonce);
+        let mut recommit_sample = 0usize;
         // thin out the 64 byte-proof leaves of the decryptable encryptions in the quick tier
         let stride = if em.thorough() { 1 } else { 5 };
         let mut byte_leaf_counter = 0usize;
@@ -141,6 +144,16 @@ fn c11_suite<S: ShortGroupSignatureScheme>(em: &mut Emitter, base: &mut Rng, sui
                 let mut v2 = pv.clone();
                 *get_mut(&mut v2, path).unwrap() = nv;
                 let (verdict, decoded) = verdict_json::<S>(&scn, &v2);
+                // … and for a sample of the mutated ones (the recomputed values must move exactly as the model says)
+                if let Some(q) = &decoded {
+                    let touches = path.iter().any(|s| s == "Commitment" || s == "VerifiableEncryption" || s == "pok" || s == "challenge" || s == "disclosed_messages");
+                    if touches && !is_byte_leaf {
+                        recommit_sample += 1;
+                        if recommit_sample % (if em.thorough() { 2 } else { 6 }) == 0 {
+                            recommit_lines(em, suite, &scn.schema, q, &scn.nonce);
+                        }
+                    }
+                }
                 em.oracle_case(&format!("{} {} {:?} {}", suite, k, path, how));
                 em.count(&format!("leaf:{:?}:{}:{}", kind, how, verdict));
                 if verdict == "accepted" {
